@@ -514,8 +514,11 @@ impl DepthFirstSearch {
             return Value::Null;
         }
 
-        // String (quoted)
-        if (s.starts_with('"') && s.ends_with('"')) || (s.starts_with('\'') && s.ends_with('\'')) {
+        // String (quoted): a lone quote character both starts and ends the text, so require two of them
+        if s.len() >= 2
+            && ((s.starts_with('"') && s.ends_with('"'))
+                || (s.starts_with('\'') && s.ends_with('\'')))
+        {
             return Value::String(s[1..s.len() - 1].to_string());
         }
 
@@ -1117,8 +1120,11 @@ impl BreadthFirstSearch {
             return Value::Null;
         }
 
-        // String (quoted)
-        if (s.starts_with('"') && s.ends_with('"')) || (s.starts_with('\'') && s.ends_with('\'')) {
+        // String (quoted): a lone quote character both starts and ends the text, so require two of them
+        if s.len() >= 2
+            && ((s.starts_with('"') && s.ends_with('"'))
+                || (s.starts_with('\'') && s.ends_with('\'')))
+        {
             return Value::String(s[1..s.len() - 1].to_string());
         }
 
